@@ -662,3 +662,94 @@ def _write_back(c):
 
 Lemma('C07', 'write_back_is_identity', _write_back,
       doc='update_model(fit_values) sets every fitted parameter to its current value (views + update_model contracts)')
+
+
+# ------------------------------------------------------------------ SimpleForwardModel.collect_fitting_parameters: the union over all components
+from pyvc.core import PyDict, Ref
+
+_CF_COMPS = ['planet', 'star', 'pressure', 'temperature', 'chemistry']
+
+
+def _cf_params(c):
+    star, M = c.choice('star'), c.choice('M')
+    if c.mode == 'conc':
+        return dict(self=dict(__obj__='SimpleForwardModel'))
+    mk = lambda tag: AbsObj('Fittable', tag, {})
+    return dict(self=ObjSpec('SimpleForwardModel', _fitting_parameters=None, _planet=mk('planet'), _star=mk('star') if star else None,
+                             pressure=mk('pressure'), _temperature_profile=mk('temperature'), _chemistry=mk('chemistry'),
+                             contribution_list=[mk('contrib%d' % k) for k in range(M)]))
+
+
+def _h_fitpars(ex, st, o, args, kwargs, node):
+    """a component's fitting_parameters(): its own parameter plus one named 'shared' that every component offers (the
+    later component in the documented order must win)"""
+    tag = o.ident
+    st.trace.append(('ev', ('fitting_parameters', tag)))
+    return st.alloc(ex.c, PyDict({'p_%s' % tag: ('tuple', tag), 'shared': ('shared-from', tag)}))
+
+
+def _h_own_fitpars(ex, st, args, kwargs, node):
+    st.trace.append(('ev', ('fitting_parameters', 'model')))
+    return st.alloc(ex.c, PyDict({'p_model': ('tuple', 'model'), 'shared': ('shared-from', 'model')}))
+
+
+def _cf_order(fx):
+    return ['model', 'planet'] + (['star'] if fx['star'] else []) + ['pressure', 'temperature', 'chemistry'] + ['contrib%d' % k for k in range(fx['M'])]
+
+
+def _cf_post(c, v0, v1, r):
+    fx = c.fixed if c.mode != 'conc' else c.values
+    order = _cf_order(fx)
+    if c.mode == 'conc':
+        got = v1.self['_fitting_parameters'] if isinstance(v1.self, dict) else v1.self._fitting_parameters
+        calls = [e[1] for e in (c.trace or [])]
+    else:
+        ref = v1.self.ref('_fitting_parameters')
+        cell = c.raw['state'].heap.get(ref.id) if isinstance(ref, Ref) else None
+        got = dict(cell.items) if isinstance(cell, PyDict) else None
+        calls = [e[1] for e in (c.trace or []) if e[0] == 'fitting_parameters']
+    d = {'every_component_asked_once_in_the_documented_order': calls == order, 'a_dictionary': isinstance(got, dict)}
+    if not d['a_dictionary']:
+        return d
+    d['every_parameter_collected'] = set(got.keys()) == {'p_%s' % t for t in order} | {'shared'}
+    d['each_under_its_own_component'] = all(tuple(got.get('p_%s' % t, ())) == ('tuple', t) for t in order)
+    d['later_component_wins_a_name_clash'] = tuple(got.get('shared', ())) == ('shared-from', order[-1])
+    return d
+
+
+def _cf_native(c, p):
+    from taurex.model.simplemodel import SimpleForwardModel
+    fx = c.values
+    trace = []
+
+    class _F:
+        def __init__(self, tag):
+            self.tag = tag
+
+        def fitting_parameters(self):
+            trace.append(('fitting_parameters', self.tag))
+            return {'p_%s' % self.tag: ('tuple', self.tag), 'shared': ('shared-from', self.tag)}
+
+    class _M(SimpleForwardModel):
+        pressure = property(lambda self: self._pp)
+
+        def fitting_parameters(self):
+            trace.append(('fitting_parameters', 'model'))
+            return {'p_model': ('tuple', 'model'), 'shared': ('shared-from', 'model')}
+    m = _M.__new__(_M)
+    for nm in ('debug', 'info', 'warning', 'error', 'critical'):
+        setattr(m, nm, lambda *a, **k: None)
+    m._planet, m._star, m._pp = _F('planet'), (_F('star') if fx['star'] else None), _F('pressure')
+    m._temperature_profile, m._chemistry = _F('temperature'), _F('chemistry')
+    m.contribution_list = [_F('contrib%d' % k) for k in range(fx['M'])]
+    m.collect_fitting_parameters()
+    return None, dict(p, self=dict(p['self'], _fitting_parameters=m._fitting_parameters), __trace__=trace)
+
+
+_CF_CASES = [dict(star=s, M=M) for s in (True, False) for M in (0, 1, 2)]
+CFP = Unit('C07', 'taurex.model.simplemodel:SimpleForwardModel.collect_fitting_parameters', _cf_params, post=_cf_post, cases=_CF_CASES, bounds=[{}],
+           abstract={'Fittable.fitting_parameters': _h_fitpars, 'call:fitting_parameters': _h_own_fitpars}, frame_attrs=[('self', '_fitting_parameters')],
+           native=_cf_native, gen=lambda rng: dict(rng.choice(_CF_CASES)), short='SimpleForwardModel.collect_fitting_parameters',
+           doc='the parameters a retrieval can fit: the union over the model itself, planet, star (when present), pressure, temperature, '
+               'chemistry and every contribution, each component asked once in that order, a later component winning a name clash '
+               '(0..2 contributions)')
